@@ -318,11 +318,12 @@ class Fresh:
                     cls, why = self.classify(recv, before, ff)
                     text = f"{show(recv, 60)}.{f.attr}() mutates its receiver"
                 add(stmt, text, cls, cls in WRITABLE, why, text, 'recvcall')
-        # augmented assignment to a plain name mutates in place when the value is a set / list / dict: `s |= other`
+        # augmented assignment to a name / attribute / item mutates in place when the value is a set / list / dict: `s |= other`
         # on the set a cached method returned changes what every later caller of that method gets
         import copy as _copy
         for stmt in walk_no_nested(fi.node):
-            if isinstance(stmt, ast.AugAssign) and isinstance(stmt.target, ast.Name) and id(stmt) in ff.pre and \
+            if isinstance(stmt, ast.AugAssign) and isinstance(stmt.target, (ast.Name, ast.Attribute, ast.Subscript)) and \
+                    id(stmt) in ff.pre and \
                     isinstance(stmt.op, (ast.BitOr, ast.BitAnd, ast.BitXor, ast.Sub, ast.Add)):
                 before = ff.pre[id(stmt)]
                 load = _copy.copy(stmt.target)
@@ -330,7 +331,7 @@ class Fresh:
                 cur = ff.resolve(load, before)
                 cls, why = self.classify(cur, before, ff)
                 if cls == CACHED:
-                    text = f"{stmt.target.id} {type(stmt.op).__name__}= .."
+                    text = f"{show(stmt.target, 40)} {type(stmt.op).__name__}= .."
                     add(stmt, f"in-place {text}", cls, False, why, text, 'mutcall')
         # closures at their registration sites
         for call, stmt, before in ff.registrations:
